@@ -40,34 +40,73 @@ def execute(spec, external_cancel_at=None, sample=None):
     buf = io.StringIO()
     try:
         with contextlib.redirect_stdout(buf):
-            def second():
-                # forget the first run: the trace and the shutdown-call counters start again
+            def add_job(S, js):
+                o = vloop.SJob(js['name'], b.trace, duration=js.get('duration', 1.0), outcome=js.get('outcome', 'ret'),
+                               critical=js.get('critical', False), forever=js.get('forever', False),
+                               cancel_delay=js.get('cancel_delay', 0.0), shutdown_duration=js.get('shutdown_duration', 0.0),
+                               yields=js.get('yields', 0))
+                b.objs[S].add(o)
+                b.objs[js['name']] = o
+                b.spec[js['name']] = js
+                b.parent[js['name']] = S
+                b.members[S].append(js['name'])
+
+            def apply(step):
+                """one edit of the tree between two runs; the bookkeeping the oracles read (b.spec, b.members,
+                b.edges) is edited alongside"""
+                kind = step[0]
+                if kind == 'edge':
+                    _, S, i, j = step
+                    mem = b.members[S]
+                    b.objs[mem[i]].requires(b.objs[mem[j]])
+                    if (mem[i], mem[j]) not in b.edges[S]:
+                        b.edges[S].append((mem[i], mem[j]))
+                elif kind == 'window':
+                    _, S, w = step
+                    b.objs[S].jobs_window = w
+                    b.spec[S]['window'] = w
+                elif kind == 'add':
+                    add_job(step[1], step[2])
+                elif kind == 'remove':
+                    _, S, name = step
+                    sch = b.objs[S]
+                    sch.remove(b.objs[name])
+                    sch.sanitize()
+                    b.members[S].remove(name)
+                    b.edges[S] = [(x, y) for (x, y) in b.edges[S] if name not in (x, y)]
+                    # the job has left the tree: the properties no longer speak of it
+                    for d_ in (b.objs, b.spec, b.parent):
+                        d_.pop(name, None)
+                elif kind == 'query':
+                    sch = b.objs[step[1]]
+                    list(sch.entry_jobs()), list(sch.exit_jobs()), sch.check_cycles(), list(sch.iterate_jobs())
+                    for m in b.members[step[1]]:
+                        sch.successors(b.objs[m]), sch.predecessors_upstream(b.objs[m])
+                    sch.list()
+                    try:
+                        sch.dot_format()
+                    except ValueError:
+                        pass
+
+            def second(k=0):
+                # forget the earlier run: the trace and the shutdown-call counters start again
                 del b.trace.events[:]
                 del samples[:]
                 for o in b.objs.values():
                     if hasattr(o, '_sd_calls'):
                         o._sd_calls = 0
-                # optionally the graph is edited between the two runs: one more requirement between two members
-                if 'rerun_window' in spec:
-                    # the window of the top scheduler is edited between the two runs: the second run obeys the new one
-                    b.top.jobs_window = spec['rerun_window']
-                    b.spec[b.top.name]['window'] = spec['rerun_window']
-                for js in spec.get('rerun_add') or []:
-                    # jobs added to the top scheduler between the two runs
-                    o = vloop.SJob(js['name'], b.trace, duration=js.get('duration', 1.0), outcome=js.get('outcome', 'ret'),
-                                   critical=js.get('critical', False), forever=js.get('forever', False))
-                    b.top.add(o)
-                    b.objs[js['name']] = o
-                    b.spec[js['name']] = js
-                    b.parent[js['name']] = b.top.name
-                    b.members[b.top.name].append(js['name'])
+                if 'rerun_window' in spec and k == 0:
+                    apply(['window', b.top.name, spec['rerun_window']])
+                for js in (spec.get('rerun_add') or []) if k == 0 else []:
+                    apply(['add', b.top.name, js])
                 ed = spec.get('rerun_edge')
-                if ed:
-                    S, i, j = ed
-                    mem = b.members[S]
-                    b.objs[mem[i]].requires(b.objs[mem[j]])
-                    b.edges[S].append((mem[i], mem[j]))
-            r = vloop.run(b, external_cancel_at=external_cancel_at, again=bool(spec.get('rerun')), on_second_run=second)
+                if ed and k == 0:
+                    apply(['edge'] + list(ed))
+                sess = spec.get('session') or []
+                for step in (sess[k] if k < len(sess) else []):
+                    apply(step)
+            nruns = max(len(spec.get('session') or []), 1) if spec.get('rerun') else 0
+            r = vloop.run(b, external_cancel_at=external_cancel_at, again=nruns, on_second_run=second)
     finally:
         PureScheduler._create_task = orig
     r.samples = samples
@@ -956,6 +995,52 @@ def gen_c10(rng):
     t = tree(0, 'm')
     t['name'] = 'top'
     return t
+
+
+def gen_session(rng, spec, runs=None):
+    """random edits of the tree between runs of the same top scheduler (admissibility for C03 is kept: no
+    requirement on a forever job, windows stay larger than the number of members that may never end, every
+    scheduler keeps a non-forever job)"""
+    scheds = [sp for sp in all_specs(spec) if sp['type'] == 'sched']
+    sess = []
+    counter = [0]
+    state = {sp['name']: [m['name'] for m in sp['members']] for sp in scheds}
+    kinds = {m['name']: m for sp in scheds for m in sp['members']}
+    plain = lambda n: kinds[n]['type'] == 'job' and not kinds[n].get('forever') and kinds[n].get('duration') is not None
+    for _k in range(runs or rng.choice([1, 1, 2])):
+        steps = []
+        for _ in range(rng.randint(1, 3)):
+            sp = rng.choice(scheds)
+            S = sp['name']
+            mem = state[S]
+            r = rng.random()
+            if r < 0.25:
+                steps.append(['query', S])
+            elif r < 0.45:
+                never = sum(1 for n in mem if not plain(n))
+                steps.append(['window', S, rng.choice([None] + [w for w in (1, 2, 3, 4) if w > never])])
+            elif r < 0.65:
+                idx = [i for i, n in enumerate(mem) if plain(n)]
+                if len(idx) >= 2:
+                    j, i = sorted(rng.sample(idx, 2))
+                    steps.append(['edge', S, i, j])
+            elif r < 0.85:
+                counter[0] += 1
+                js = dict(name='%s_new%d' % (S, counter[0]), type='job', duration=rng.choice([0, 1, 2]),
+                          outcome='raise' if rng.random() < 0.2 else 'ret', critical=False, forever=rng.random() < 0.2,
+                          cancel_delay=0, shutdown_duration=0, yields=rng.choice([0, 0, 1, 2]))
+                kinds[js['name']] = js
+                mem.append(js['name'])
+                steps.append(['add', S, js])
+            else:
+                cand = [n for n in mem if plain(n)]
+                if len(cand) >= 2:
+                    n = rng.choice(cand)
+                    # positions of the remaining members shift: later 'edge' steps use the updated list
+                    mem.remove(n)
+                    steps.append(['remove', S, n])
+        sess.append(steps)
+    return sess
 
 
 def gen_chain(rng):
